@@ -54,8 +54,14 @@ fn out_ref(k: &InKey) -> OutputRef {
 
 /// Every output the wallet holds a row for, per the model: notes of scanned blocks and coins.
 fn lockable(wd: &World, v: &View) -> Vec<(InKey, usize)> {
-    let mut x: Vec<(InKey, usize)> = v.notes.values().filter(|n| !n.spent_mined).map(|n| (InKey::Note(n.key), n.account)).collect();
-    x.extend(v.coins.values().filter(|c| !c.from_wallet_tx && !c.spent_mined).map(|c| (InKey::Coin(c.key.0, c.key.1), c.account)));
+    // ordered by chain position / value, not by txid: transactions the wallet builds get random
+    // txids, and the course of a history must not depend on them
+    let mut ns: Vec<_> = v.notes.values().filter(|n| !n.spent_mined).collect();
+    ns.sort_by_key(|n| (n.key.pool, n.position));
+    let mut x: Vec<(InKey, usize)> = ns.into_iter().map(|n| (InKey::Note(n.key), n.account)).collect();
+    let mut cs: Vec<_> = v.coins.values().filter(|c| !c.from_wallet_tx && !c.spent_mined).collect();
+    cs.sort_by_key(|c| (c.account, c.value, c.mined, c.key.1));
+    x.extend(cs.into_iter().map(|c| (InKey::Coin(c.key.0, c.key.1), c.account)));
     let _ = wd;
     x
 }
@@ -104,7 +110,14 @@ fn lock_op(wd: &mut World, r: &mut Reporter, d: &mut Driver) {
         }
         6..=7 => {
             // unlock one locked output, with the right or a wrong owner
-            let locked: Vec<(InKey, LockM)> = wd.m.locks.iter().map(|(k, l)| (*k, *l)).collect();
+            let mut locked: Vec<(InKey, LockM)> = wd.m.locks.iter().map(|(k, l)| (*k, *l)).collect();
+            locked.sort_by_key(|(k, l)| {
+                let pos = match k {
+                    InKey::Note(n) => v.notes.get(n).map(|x| (x.key.pool.idx() as u64, x.position)),
+                    InKey::Coin(t, i) => v.coins.get(&(*t, *i)).map(|c| (9, c.value)),
+                };
+                (l.expiry, l.owner, pos)
+            });
             let Some((k, l)) = locked.choose(&mut wd.rng).copied() else { return };
             let o = if wd.rng.gen_bool(0.6) { l.owner } else { wd.rng.gen_range(0..N_OWNERS) };
             let res = wd.w.db.unlock_output(&out_ref(&k), owner(o));
